@@ -156,7 +156,7 @@ func genCanonCase(r *rand.Rand, cfg Cfg) Case {
 func genLonelyTopCase(r *rand.Rand, cfg Cfg) Case {
 	cfg = noCache(cfg)
 	cfg.KK = "vk"
-	cfg.BF = pick(r, []uint{2, 3, 4})
+	cfg.BF = pick(r, []uint{2, 3, 4, 4, 8, 16})
 	bf := int(cfg.BF)
 	n := bf*bf + 1 + r.Intn(bf*bf*bf)
 	ids := r.Perm(4*n + 8)
@@ -269,7 +269,7 @@ func genPersistCase(r *rand.Rand, cfg Cfg) Case {
 // versions are decoded from the store and checked against the shape invariants and the model.
 func genSharedCachePersistCase(r *rand.Rand, cfg Cfg) Case {
 	cfg.Cache = "big"
-	cfg.BF = pick(r, []uint{2, 3, 4})
+	cfg.BF = pick(r, []uint{2, 3, 4, 4, 8, 16})
 	uni := Universe(r, cfg, 20+r.Intn(50))
 	ops := []string{"new 0"}
 	m := map[uint64]uint64{}
@@ -292,6 +292,45 @@ func genSharedCachePersistCase(r *rand.Rand, cfg Cfg) Case {
 	for _, k := range ks[:nd] {
 		ops = append(ops, opDel(1, k, m[k]))
 	}
+	if r.Intn(2) == 0 {
+		// the second tree merges the same cached children as the first one did, after having
+		// changed what stands next to them — and only then is the first tree persisted (its
+		// merged nodes must not share anything with the cached nodes they were built from)
+		m2 := map[uint64]uint64{}
+		for k, v := range m {
+			m2[k] = v
+		}
+		asc := append([]uint64{}, uni...)
+		sort.Slice(asc, func(i, j int) bool { return asc[i] < asc[j] }) // the numbering of keys is order-preserving for every key kind
+		for _, sep := range ks[:nd] {
+			// a key from the node right of the separator goes first (or, sometimes, any key)
+			for i, k := range asc {
+				if k == sep && i+1 < len(asc) && r.Intn(4) != 0 {
+					k2 := asc[i+1+r.Intn(min(2, len(asc)-i-1))]
+					if v, ok := m2[k2]; ok && cfg.RefLayer(k2) < cfg.RefLayer(sep) {
+						ops = append(ops, opDel(2, k2, v))
+						delete(m2, k2)
+					}
+				}
+			}
+		}
+		for i := 0; i < r.Intn(3); i++ {
+			k := pick(r, ks[nd:])
+			if v, ok := m2[k]; ok {
+				ops = append(ops, opDel(2, k, v))
+				delete(m2, k)
+			}
+		}
+		for _, k := range ks[:nd] {
+			if _, ok := m2[k]; ok && r.Intn(4) != 0 {
+				ops = append(ops, opDel(2, k, m2[k]))
+				delete(m2, k)
+			}
+		}
+		ops = append(ops, "iter 1", "iter 2", "root 1 1", "pshape 1", "iter 1", "stat 1",
+			"root 2 2", "pshape 2", "iter 2", "stat 2", "pshape 0", "pshape 1", "load 1 3", "iter 3")
+		return Case{cfg, ops}
+	}
 	ops = append(ops, "root 1 1", "pshape 1", "iter 1", "stat 1")
 	for i := 0; i < 2+r.Intn(8); i++ {
 		k := pick(r, uni)
@@ -302,9 +341,9 @@ func genSharedCachePersistCase(r *rand.Rand, cfg Cfg) Case {
 }
 
 func famPersist(f *FamCtx) {
-	f.Report.Rule = "1-5 cycles of (batch of inserts/updates/deletes, sometimes empty, sometimes delete-to-empty) -> MakeRoot on a recording store without cache (every Store call's name and bytes compared with the model's encoder and BLAKE2b) -> shape decoded by the harness from the stored bytes (C09 invariants evaluated in Go, graph compared with the model) -> reload through a JSON round-trip of the Root; one case in six: a multi-level version loaded twice through one node cache, interior keys deleted in one tree, the other modified afterwards, both persisted versions decoded and checked; non-trivial = reached height >= 1 and changed height"
+	f.Report.Rule = "1-5 cycles of (batch of inserts/updates/deletes, sometimes empty, sometimes delete-to-empty) -> MakeRoot on a recording store without cache (every Store call's name and bytes compared with the model's encoder and BLAKE2b) -> shape decoded by the harness from the stored bytes (C09 invariants evaluated in Go, graph compared with the model) -> reload through a JSON round-trip of the Root; one case in four: a multi-level version loaded twice through one node cache, interior keys deleted in one tree, the other modified afterwards (or: the other deletes next to and then the same interior keys before the first is persisted), both persisted versions decoded and checked; non-trivial = reached height >= 1 and changed height"
 	f.Gen = func() Case {
-		if f.Rand.Intn(6) == 0 {
+		if f.Rand.Intn(4) == 0 {
 			return genSharedCachePersistCase(f.Rand, RandCfg(f.Rand))
 		}
 		return genPersistCase(f.Rand, RandCfg(f.Rand))
